@@ -22,6 +22,10 @@ pub struct Case {
     /// caller caught each panic - a worker pool that survives panics); routing afterwards is as for any record
     #[serde(default)]
     pub prior_panics: u8,
+    /// the configuration is built with this provisional root level and corrected afterwards through the public
+    /// `Config::root_mut().set_level()`
+    #[serde(default)]
+    pub via_root_mut: Option<u8>,
 }
 
 #[derive(Debug)]
@@ -40,9 +44,9 @@ pub fn strategy() -> impl Strategy<Value = Case> {
         raw_targets(2..=6),
         prop::collection::vec(any::<u16>(), 8),
         prop::collection::vec(any::<u16>(), 5),
-        (prop_oneof![2 => Just(vec![]), 1 => prop::collection::vec(prop::bool::weighted(0.4), 5)], prop_oneof![9 => Just(0u8), 1 => 1u8..12]),
+        (prop_oneof![2 => Just(vec![]), 1 => prop::collection::vec(prop::bool::weighted(0.4), 5)], prop_oneof![9 => Just(0u8), 1 => 1u8..12], prop::option::weighted(0.25, 0u8..6)),
     )
-        .prop_map(|(raw, rt, pl, pa, (failing, prior_panics))| {
+        .prop_map(|(raw, rt, pl, pa, (failing, prior_panics, via_root_mut))| {
             let cfg = resolve(&raw);
             let mut targets: Vec<String> = rt
                 .iter()
@@ -56,6 +60,7 @@ pub fn strategy() -> impl Strategy<Value = Case> {
                 targets,
                 failing,
                 prior_panics,
+                via_root_mut,
             }
         })
 }
@@ -97,7 +102,18 @@ pub fn check(case: &Case, obs: &mut Obs) -> CaseResult {
     }
     let sink = new_sink();
     // errors go to a handler that only counts them (the default handler would write to stderr)
-    let config = match build_config_failing(cfg, &sink, "", &case.failing) {
+    let built = match case.via_root_mut {
+        None => build_config_failing(cfg, &sink, "", &case.failing),
+        Some(p) => {
+            let mut provisional = cfg.clone();
+            provisional.root_level = p % 6;
+            build_config_failing(&provisional, &sink, "", &case.failing).map(|mut c| {
+                c.root_mut().set_level(crate::model::route::LEVEL_FILTERS[cfg.root_level as usize % 6]);
+                c
+            })
+        }
+    };
+    let config = match built {
         Ok(c) => c,
         Err(e) => return fail("C01:valid-config-rejected", format!("build() rejected a valid configuration: {}", e)),
     };
@@ -128,7 +144,9 @@ pub fn check(case: &Case, obs: &mut Obs) -> CaseResult {
         for (li, level) in LEVELS.iter().enumerate() {
             let expected = cfg.route(t, *level);
             let msg = format!("{}", li);
-            with_record(t, *level, &msg, |r| logger.log(r));
+            // where the record was logged from (module path = the name of some configured logger) has no say in routing
+            let site = cfg.loggers.get(li % cfg.loggers.len().max(1)).map(|l| (l.name.as_str(), "src/lib.rs", 7u32));
+            with_record_at(t, *level, &msg, site, |r| logger.log(r));
             let got = drain_multiset(&sink);
             obs.sub_evals += 1;
             ensure!(
@@ -188,6 +206,7 @@ pub fn check(case: &Case, obs: &mut Obs) -> CaseResult {
     obs.class_if(case.targets.iter().any(|t| t.contains(":::") || t.ends_with(':') || t.starts_with(':') || (t.contains(':') && !t.contains("::"))), "stray-colon-target");
     obs.class_if(case.targets.iter().any(|t| t.is_empty()), "empty-target");
     obs.class_if(case.failing.iter().any(|f| *f), "failing-appenders-in-the-chain");
+    obs.class_if(case.via_root_mut.is_some(), "root-level-set-through-root_mut");
     let _ = cfgtree::COMPS;
     Ok(())
 }
@@ -254,7 +273,7 @@ pub fn replay(part: &str, case: serde_json::Value) -> Option<CaseResult> {
 pub fn meta() -> EvidenceMeta {
     EvidenceMeta {
         level: "exploration",
-        rule: "cases = generated configurations (cfgtree: <=8 loggers over the component alphabet {a,b,ab,aa,ba,é}, built with descendant / skipped-level / textual-sibling / leading-'::' biases, 1-5 capture appenders, repeats allowed) x 2-6 targets derived from the configuration x 5 levels, each also under a permuted declaration order; oracle = independent component-wise route() model; Lists reach the builders through a mix of singular and bulk calls; 10% of the cases start after 1-11 caught appender panics on the same thread (through another logger); per case one appender logs a nested record from inside append and the nested record must be routed once per delivery of the outer one. non-trivial = >=2 loggers and a probe whose effective logger is non-root and reached through an additive=false logger, an implied intermediate or next to a textual-prefix sibling; distinct = FNV hash of the whole case".into(),
+        rule: "cases = generated configurations (cfgtree: <=8 loggers over the component alphabet {a,b,ab,aa,ba,é}, built with descendant / skipped-level / textual-sibling / leading-'::' biases, 1-5 capture appenders, repeats allowed) x 2-6 targets derived from the configuration x 5 levels, each also under a permuted declaration order; oracle = independent component-wise route() model; Probe records carry the name of a configured logger as their module path (it must not matter); in a quarter of the cases the root level is set through Config::root_mut() after build. Lists reach the builders through a mix of singular and bulk calls; 10% of the cases start after 1-11 caught appender panics on the same thread (through another logger); per case one appender logs a nested record from inside append and the nested record must be routed once per delivery of the outer one. non-trivial = >=2 loggers and a probe whose effective logger is non-root and reached through an additive=false logger, an implied intermediate or next to a textual-prefix sibling; distinct = FNV hash of the whole case".into(),
         assumptions: vec!["appenders are harness Append implementations; real appenders are covered by C14".into()],
         mutants_caught: vec![],
     }
